@@ -41,7 +41,7 @@ func (C19) Plan(tier string) core.Plan {
 
 func (C19) Info() core.Info {
 	return core.Info{
-		Rule: "seeded histories of 5-60 operations (Add, AddOverwrite, AddEdge, AddEdgeWeighted, RemoveEdge, Remove, Copy, Reverse) over a pool of <=8 vertices (int, string, hash-code vertices incl. distinct Go values with one hash code) and a growing family of live handles (original, copies, reversed views, copies of views); after every operation every handle is compared with its adjacency model (vertex set and representative, successor and predecessor sets, mirror, weights via String() and, while all weights are non-negative, a one-source Dijkstra); a quarter of the histories also set negative weights, as the resolver does. Non-trivial: history contains a Copy or Reverse and a removal; distinct = distinct (history hash, event-log hash)",
+		Rule: "seeded histories of 5-60 operations (Add, AddOverwrite, AddEdge, AddEdgeWeighted, RemoveEdge, Remove, Copy, Reverse) over a pool of <=8 vertices (int, string, hash-code vertices incl. distinct Go values with one hash code) and a growing family of live handles (original, copies, reversed views, copies of views); after every operation every handle is compared with its adjacency model (vertex set and representative, successor and predecessor sets, mirror, weights via String() and, while all weights are non-negative, a one-source Dijkstra); a quarter of the histories also set negative weights, as the resolver does; a fifth start by taking and dropping a reversed view of the still empty graph. Non-trivial: history contains a Copy or Reverse and a removal; distinct = distinct (history hash, event-log hash)",
 		Assumptions: []string{
 			"edges are only added between vertices present in the graph (adding an edge to an absent vertex is outside the statement: documented as a no-op, it panics on a nil map today)",
 			"Reverse is only taken of a graph that already holds a vertex (a zero-value Graph has no maps to share yet)",
